@@ -480,7 +480,9 @@ func (l *Lexer) readString() (string, bool) {
 	result = l.input[pos:l.pos]
 	closed := l.char == quote
 
-	l.readChar() // skip the last quote
+	if closed {
+		l.readChar() // skip the last quote
+	}
 
 	// remove slashes before quotes
 	return strings.ReplaceAll(result, "\\"+string(quote), string(quote)), closed
